@@ -68,7 +68,10 @@ def replay(spec, ops):
 def run(r, spec, ops, inputs):
     with warnings.catch_warnings():
         warnings.simplefilter('ignore')
-        res = M.run_history(pym, spec, ops)
+        try:
+            res = M.run_history(pym, spec, ops)
+        except Exception as e:   # construction of the signals / slices or the first read failed
+            res = dict(what=f'creating the signals and slices raised {type(e).__name__}: {str(e)[:160]}', op_index=len(ops) - 1)
     if res is not None:
         k = res['op_index']
         # known defect region: base holding a 0-d array, no sensitivity yet, first sensitivity write goes through a slice (state*0 is an immutable numpy scalar)
@@ -94,37 +97,52 @@ def script(rng, shape, dtype, chain):
             ('reset', 1, None, False, False), ('reset', 1, None, False, None), ('add', 1, 0, False, V()), ('add', 1, 1, True, S()), ('reset', 1, 0, True, None)]
 
 
-@bound('every key chain of the catalogue (6 base shapes incl. 0-d, (1,), (5,1); 63 chains: ints, basic/empty/negative-step slices, tuples, Ellipsis, newaxis, '
+@bound('every key chain of the catalogue for the 5 base shapes (7,), (4,5), (3,4,2), (1,), (5,1) (61 chains: ints, basic/empty/negative-step slices, tuples, Ellipsis, newaxis, '
        'int arrays/lists without repeats, several index arrays, ix_, boolean masks, nested basic 2-3 levels, basic->array) x dtype {float64, complex128, '
        'float32} x base memory layout {C, F, strided view} (quick: each chain with each dtype and each layout once; thorough: full product); one scripted 32-operation history each (2 signals, one built with a sensitivity = keep_alloc)')
 def scripted_per_slice(r, tier, seed):
     rng = np.random.default_rng(seed + 18)
     for shape, chains in CAT.items():
+        if shape == ():
+            continue   # see zero_d_arrays
         for ci, chain in enumerate(chains):
             other = chains[(ci + 1) % len(chains)]
             combos = list(itertools.product(DTYPES, ORDERS))
             if tier == 'quick':   # each chain with every dtype and every layout once (rotating pairing); thorough: the full product
                 combos = [(DTYPES[k], ORDERS[(k + ci) % 3]) for k in range(3)]
             for dtype, order in combos:
-                if order != 'C' and len(shape) == 0:
-                    order = 'C'
                 spec = [dict(state=lit(rnd(rng, shape, dtype)), sens=None, order=order, slices=[chain, other, ("Ellipsis",)]),
                         dict(state=lit(rnd(rng, shape, dtype)), sens=lit(rnd(rng, shape, dtype)), order=order, slices=[chain, other])]
                 ops = script(rng, shape, dtype, chain)
                 r.case((shape, chain, dtype, order))
                 run(r, spec, ops, dict(shape=shape, chain=chain, dtype=dtype, order=order))
-                if shape == ():
-                    # 0-d base: the same history with the base sensitivity allocated by a base add before every write through the slice, so that
-                    # everything outside the region of finding C18-0d-slice-alloc is still checked
-                    ops2 = []
-                    for op in ops:
-                        tg = [op[1:4]] if op[0] in ('sens', 'add') else [op[1], op[2]] if op[0] == 'add2' else []
-                        for (i, j, _) in tg:
-                            if j is not None:
-                                ops2.append(('add', i, None, False, lit(rnd(rng, shape, dtype))))
-                        ops2.append(op)
-                    r.case((shape, chain, dtype, order, 'allocated'))
-                    run(r, spec, ops2, dict(shape=shape, chain=chain, dtype=dtype, order=order, variant='base sensitivity allocated first'))
+
+
+@bound('base holding a 0-d array (float64, complex128, float32), keys Ellipsis and (): the scripted 32-operation history (a) with the base sensitivity '
+       'allocated by a base add before every write through the slice, (b) as is - (b) hits finding C18-0d-slice-alloc at the first sensitivity write through the slice')
+def zero_d_arrays(r, tier, seed):
+    rng = np.random.default_rng(seed + 180)
+    shape = ()
+    todo = []
+    for chain in CAT[()]:
+        for dtype in DTYPES:
+            spec = [dict(state=lit(rnd(rng, shape, dtype)), sens=None, order='C', slices=[chain, ("Ellipsis",)]),
+                    dict(state=lit(rnd(rng, shape, dtype)), sens=lit(rnd(rng, shape, dtype)), order='C', slices=[chain, ("()",)])]
+            ops = script(rng, shape, dtype, chain)
+            ops2 = []
+            for op in ops:
+                tg = [op[1:4]] if op[0] in ('sens', 'add') else [op[1], op[2]] if op[0] == 'add2' else []
+                for (i, j, _) in tg:
+                    if j is not None:
+                        ops2.append(('add', i, None, False, lit(rnd(rng, shape, dtype))))
+                ops2.append(op)
+            todo.append((chain, dtype, spec, ops, ops2))
+    for chain, dtype, spec, ops, ops2 in todo:     # everything outside the region of the finding is checked normally (and reported first)
+        r.case((chain, dtype, 'allocated'))
+        run(r, spec, ops2, dict(shape=shape, chain=chain, dtype=dtype, variant='base sensitivity allocated first'))
+    for chain, dtype, spec, ops, ops2 in todo:
+        r.case((chain, dtype, 'as is'))
+        run(r, spec, ops, dict(shape=shape, chain=chain, dtype=dtype))
 
 
 def random_ops(rng, spec, n):
@@ -183,11 +201,11 @@ def random_ops(rng, spec, n):
 @bound('random histories: 2-3 base signals (shapes of the catalogue, dtype float64/complex128/float32, layouts C/F/strided, with or without an initial '
        'sensitivity), 2-4 persistent slices each drawn from the catalogue (pairs of signals share shape and slices so that one object can be added to both), '
        '40 operations {state=, sensitivity= (incl. None), add_sensitivity (arrays, broadcast, python/numpy scalars, 0-d, None, real into complex), same object '
-       'to two targets, reset(None/True/False)}; 100 histories [quick] / 1000 [thorough]')
+       'to two targets, reset(None/True/False)}; 150 histories [quick] / 1500 [thorough]')
 def random_histories(r, tier, seed):
     rng = np.random.default_rng(seed + 1800)
     shapes = [s for s in CAT if s != ()]
-    for h in range(100 if tier == 'quick' else 1000):
+    for h in range(150 if tier == 'quick' else 1500):
         shape = shapes[int(rng.integers(len(shapes)))]
         dtype = DTYPES[int(rng.integers(3))]
         chains = [CAT[shape][int(k)] for k in rng.choice(len(CAT[shape]), size=min(len(CAT[shape]), int(rng.integers(2, 5))), replace=False)]
@@ -201,7 +219,7 @@ def random_histories(r, tier, seed):
 
 
 @bound('signals holding scalars: python float / complex, numpy float64 / complex128 / float32 scalars, 0-d arrays, with or without initial sensitivity; '
-       'all 4^3 [quick] / 4^4 [thorough] sequences over {add scalar, reset(), reset(True), reset(False)} plus 60 [quick] / 600 [thorough] random 30-operation histories')
+       'all 4^4 [quick] / 4^5 [thorough] sequences over {add scalar, reset(), reset(True), reset(False)} plus 100 [quick] / 1000 [thorough] random 30-operation histories')
 def scalar_signals(r, tier, seed):
     rng = np.random.default_rng(seed + 181)
     kinds = [('f', 1.5), ('c', 0.5, -2.0), ('s', 'float64', 2.25), ('s', 'complex128', 1.0, 0.5), ('s', 'float32', -0.75),
@@ -211,14 +229,14 @@ def scalar_signals(r, tier, seed):
         for withsens in (False, True):
             spec = [dict(state=st, sens=(scal(rng, dtype) if withsens else None), order='C', slices=[]),
                     dict(state=st, sens=None, order='C', slices=[])]
-            for seq in itertools.product(range(4), repeat=3 if tier == 'quick' else 4):
+            for seq in itertools.product(range(4), repeat=4 if tier == 'quick' else 5):
                 ops = []
                 for a in seq:
                     ops.append(('add2', (0, None, False), (1, None, False), scal(rng, dtype, ('py', 'np', '0d'))) if a == 0 else ('reset', 0, None, False, (None, True, False)[a - 1]))
                 ops.append(('add', 0, None, False, scal(rng, dtype, ('py', 'np', '0d'))))
                 r.case((st, withsens, seq))
                 run(r, spec, ops, dict(state=st, initial_sensitivity=withsens, sequence=seq))
-    for h in range(60 if tier == 'quick' else 600):
+    for h in range(100 if tier == 'quick' else 1000):
         st = kinds[int(rng.integers(len(kinds)))]
         dtype = str(np.asarray(M.dec(st)).dtype)
         spec = [dict(state=st, sens=(scal(rng, dtype) if rng.random() < 0.4 else None), order='C', slices=[]) for _ in range(2)]
@@ -334,5 +352,5 @@ assert s2.sensitivity is None or np.array_equal(s2.sensitivity.todense(), 0 * D1
 '''
 
 
-CHECKS = [('scripted_per_slice', scripted_per_slice), ('random_histories', random_histories), ('scalar_signals', scalar_signals),
+CHECKS = [('scripted_per_slice', scripted_per_slice), ('zero_d_arrays', zero_d_arrays), ('random_histories', random_histories), ('scalar_signals', scalar_signals),
           ('stateless_signals', stateless_signals), ('object_sensitivities', object_sensitivities)]
